@@ -110,7 +110,7 @@ Fixpoint p_num_aux (fuel : nat) (acc : N) (l : bytes) : N * bytes :=
   end.
 Definition p_num : P N := fun l =>
   match l with
-  | c :: _ => if (48 <=? c) && (c <=? 57) then Some (p_num_aux (List.length l) 0 l) else None
+  | c :: _ => if (48 <=? c) && (c <=? 57) then Some (p_num_aux 24 0 l) else None   (* at most 24 digits *)
   | [] => None
   end.
 Definition p_char (c : N) : P unit := fun l =>
@@ -126,8 +126,14 @@ Fixpoint p_rep {A} (p : P A) (n : nat) : P (list A) :=
   end.
 Definition p_counted {A} (p : P A) : P (list A) :=
   pdo n <- p_num; pdo _ <- p_char 59; p_rep p (N.to_nat n).
-Definition p_take (n : nat) : P bytes := fun l =>
-  if Nat.leb n (List.length l) then Some (firstn n l, skipn n l) else None.
+Fixpoint p_take (n : nat) : P bytes := fun l =>
+  match n with
+  | O => Some ([], l)
+  | S k => match l with
+           | [] => None
+           | x :: r => match p_take k r with Some (a, b) => Some (x :: a, b) | None => None end
+           end
+  end.
 
 Definition p_strlit : P str := fun l =>
   match l with
